@@ -136,6 +136,10 @@ pub(crate) fn is_plain_safe(s: &str) -> bool {
     if is_ambiguous(s) {
         return false;
     }
+    // In key position an unquoted `<<` is the merge key, not the string "<<".
+    if s == "<<" {
+        return false;
+    }
     let bytes = s.as_bytes();
     if bytes[0].is_ascii_whitespace() {
         return false;
